@@ -1,11 +1,113 @@
 import Oracle.Util
+import Wz.Model.Marshal
+import Wz.Model.Abi
+import Wz.Gen.ApiCodec
+import Wz.Gen.AbiRegs
 namespace Oracle.C08
-open Oracle
+open Oracle Wz.Model.Marshal Wz.Model.Abi
 
-/-- Topic state (stub: no model behind this topic yet). -/
+/-- Topic state: none (all operations are pure). -/
 abbrev St := Unit
 def init : St := ()
 
-def step (st : St) (_args : List String) : St × String := (st, "bad-op")
+def parseKind : String → Option Kind
+  | "int32" => some .int32 | "uint32" => some .uint32 | "int64" => some .int64 | "uint64" => some .uint64
+  | "float32" => some .float32 | "float64" => some .float64 | "uintptr" => some .uintptr
+  | _ => none
+
+def parseTy : String → Option Ty
+  | "i32" => some .i32 | "i64" => some .i64 | "f32" => some .f32 | "f64" => some .f64 | "v128" => some .v128
+  | _ => none
+
+def parseTys (s : String) : Option (List Ty) :=
+  if s == "-" then some [] else (s.splitOn ",").mapM parseTy
+
+def parseVariant (s : String) : Option Variant :=
+  match s.toList with
+  | [a, b, c] =>
+    if (a == '0' || a == '1') && (b == '0' || b == '1') && (c == '0' || c == '1') then
+      some ⟨a == '1', b == '1', c == '1'⟩
+    else none
+  | _ => none
+
+def hex (n : Nat) : String := "0x" ++ String.ofList (Nat.toDigits 16 n)
+
+def showLoc : Loc → String
+  | .reg _ r => s!"r{r}"
+  | .stack o => s!"s{o}"
+
+def showArgs (l : List Arg) : String :=
+  "[" ++ ",".intercalate (l.map fun a => s!"{a.index}:{showLoc a.loc}") ++ "]"
+
+def regsOf : String → Option (List Nat × List Nat)
+  | "amd64" => some (Wz.Gen.AbiRegs.amd64IntArgResultRegs, Wz.Gen.AbiRegs.amd64FloatArgResultRegs)
+  | "arm64" => some (Wz.Gen.AbiRegs.arm64IntArgResultRegs, Wz.Gen.AbiRegs.arm64FloatArgResultRegs)
+  | _ => none
+
+def step (st : St) (args : List String) : St × String :=
+  match args with
+  | ["slicesize", p, r] =>
+    match parseNat p, parseNat r with
+    | some p, some r => (st, s!"{sliceSize p r}")
+    | _, _ => (st, "bad-op")
+  | ["api", fn, x] =>
+    match parseNat x with
+    | none => (st, "bad-op")
+    | some x =>
+      match fn with
+      | "EncodeI32" => (st, hex (Wz.Gen.ApiCodec.EncodeI32 (BitVec.ofNat 32 x)).toNat)
+      | "DecodeI32" => (st, hex (Wz.Gen.ApiCodec.DecodeI32 (BitVec.ofNat 64 x)).toNat)
+      | "EncodeU32" => (st, hex (Wz.Gen.ApiCodec.EncodeU32 (BitVec.ofNat 32 x)).toNat)
+      | "DecodeU32" => (st, hex (Wz.Gen.ApiCodec.DecodeU32 (BitVec.ofNat 64 x)).toNat)
+      | "EncodeI64" => (st, hex (Wz.Gen.ApiCodec.EncodeI64 (BitVec.ofNat 64 x)).toNat)
+      | "EncodeExternref" => (st, hex (Wz.Gen.ApiCodec.EncodeExternref (BitVec.ofNat 64 x)).toNat)
+      | "DecodeExternref" => (st, hex (Wz.Gen.ApiCodec.DecodeExternref (BitVec.ofNat 64 x)).toNat)
+      | "EncodeF32" => (st, hex (EncodeF32 (BitVec.ofNat 32 x)).toNat)
+      | "DecodeF32" => (st, hex (DecodeF32 (BitVec.ofNat 64 x)).toNat)
+      | "EncodeF64" => (st, hex (EncodeF64 (BitVec.ofNat 64 x)).toNat)
+      | "DecodeF64" => (st, hex (DecodeF64 (BitVec.ofNat 64 x)).toNat)
+      | _ => (st, "bad-op")
+  | ["viaf64", x] =>
+    match parseNat x with
+    | some x => (st, hex (viaF64 (BitVec.ofNat 32 x)).toNat)
+    | none => (st, "bad-op")
+  | ["param", v, k, raw] =>
+    match parseVariant v, parseKind k, parseNat raw with
+    | some v, some k, some raw => (st, hex (decodeParam v k (BitVec.ofNat 64 raw)).toNat)
+    | _, _, _ => (st, "bad-op")
+  | ["result", v, k, x] =>
+    match parseVariant v, parseKind k, parseNat x with
+    | some v, some k, some x => (st, hex (encodeResult v k (BitVec.ofNat k.width x)).toNat)
+    | _, _, _ => (st, "bad-op")
+  | ["ne", e, slot, c] =>
+    match parseNat slot, parseNat c with
+    | some slot, some c =>
+      if e == "interpreter" then (st, b2s (wasmNeI32 .interpreter (BitVec.ofNat 64 slot) (BitVec.ofNat 32 c)))
+      else if e == "compiler" then (st, b2s (wasmNeI32 .compiler (BitVec.ofNat 64 slot) (BitVec.ofNat 32 c)))
+      else (st, "bad-op")
+    | _, _ => (st, "bad-op")
+  | ["abi", arch, ps, rs] =>
+    match regsOf arch, parseTys ps, parseTys rs with
+    | some (ints, floats), some ps, some rs =>
+      let a := abiInit ints floats ps rs
+      let al := match a.alignedSlotSize with | some s => s!"{s}" | none => "panic"
+      let info := match a.info with | some s => s!"{s}" | none => "panic"
+      (st, s!"args={showArgs a.args} rets={showArgs a.rets} ass={a.argStackSize} rss={a.retStackSize} ai={a.argIntRealRegs} af={a.argFloatRealRegs} ri={a.retIntRealRegs} rf={a.retFloatRealRegs} aligned={al} info={info}")
+    | _, _, _ => (st, "bad-op")
+  | ["regs", arch] =>
+    match regsOf arch with
+    | some (ints, floats) => (st, s!"{ints} {floats}")
+    | none => (st, "bad-op")
+  | ["stackview", ts] =>
+    match parseTys ts with
+    | some ts =>
+      let idx := (List.range ts.length).map (slotIndex ts)
+      (st, s!"{idx} total={totalSlots ts}")
+    | none => (st, "bad-op")
+  | ["gocallsize", ps, rs] =>
+    match parseTys ps, parseTys rs with
+    | some ps, some rs => let r := goCallRequiredStackSize ps rs; (st, s!"{r.1} {r.2}")
+    | _, _ => (st, "bad-op")
+  | _ => (st, "bad-op")
 
 end Oracle.C08
